@@ -75,6 +75,7 @@ def e3_task(payload):
     for bad in payload['subsets']:
         for assignment in payload['assignments']:
             spec = {'base': base_key, 'inputs': case['inputs'], 'outputs': outputs, 'K': K, 'assignment': assignment, 'seed': 0,
+                    'cpu_count': payload.get('cpu_count'),
                     'script': {'ok': [case['ok'](k) for k in range(K)], 'bad': list(bad), 'bad_value': case['bad_value']}}
             tag = runner.fork_exec(MC.mc_main_execution, spec, timeout=900)
             res['execs'] += 1
@@ -84,7 +85,7 @@ def e3_task(payload):
                 continue
             r = tag[1]
             res['accepted'] += 1
-            ctx = f'[{base_key}/{variant} K={K} failing={list(bad)} assignment={assignment}]'
+            ctx = f'[{base_key}/{variant} K={K} failing={list(bad)} assignment={r.get("assignment_used")} cpu_count={payload.get("cpu_count")} work items={r.get("chunks")}]'
             ok_tasks = [o for o in r['outcomes'] if o[2] == 'ok']
             exp_ok = [k for k in range(K) if k not in bad]
             if sorted(o[0] for o in ok_tasks) != exp_ok:
@@ -173,9 +174,9 @@ def e3_task(payload):
                             txt = stats.get(o, {}).get(k)
                             if txt is None or txt != f'{js.get(k, math.nan):,.2f}':
                                 check.fail(res, f'stats/text-vs-json/{k}', f'{ctx} {o}: text block shows {txt!r}, JSON value formats to {js.get(k, math.nan):,.2f}')
-            d = check.digest([base_key, variant, K, list(bad), assignment])
+            d = check.digest([base_key, variant, K, list(bad), r.get('assignment_used')])
             res['states'].append(d)
-            if bad and max(assignment) > 0:
+            if bad and max(r.get('assignment_used') or [0]) > 0:
                 res['nontrivial'].append(d)
     res['sample'] = {'fault_enumeration': {'base': base_key, 'outputs': outputs, 'K': K, 'failing_subsets': [list(b) for b in payload['subsets']][:4],
                                            'assignments': payload['assignments'][:4]}}
@@ -198,6 +199,21 @@ def plan(tier, seed):
         for variant in case['outputs']:
             for sub in subsets:
                 P.append({'kind': 'e3', 'base': base_key, 'variant': variant, 'K': K, 'subsets': [sub], 'assignments': assignments})
+    # long runs as seen by the pool: K iterations on a machine that reports 1 CPU (environment answer), at most one failing
+    # iteration (deviation bound 1; thorough 2); work items are whatever the driver hands to map() - the assignments enumerate those
+    KL = 8 if tier == 'quick' else 12
+    counts = sorted({KL // d for d in (1, 2, 3, 4)} - {0})
+    parts = {n: poolx.set_partitions(n, 2) for n in counts}
+    nassign = 6 if tier == 'quick' else 16
+    assigns = []
+    for j in range(nassign):
+        # j-th assignment for every possible number of work items: spread over the partition list (first, last, and evenly between)
+        assigns.append({str(n): parts[n][(j * (len(parts[n]) - 1)) // max(1, nassign - 1)] for n in counts})
+    subs = [()] + [(i,) for i in range(KL)]
+    if tier == 'thorough':
+        subs += [tuple(c) for c in itertools.combinations(range(KL), 2)]
+    for i in range(0, len(subs), 3):
+        P.append({'kind': 'e3', 'base': 'hip', 'variant': 'plain', 'K': KL, 'subsets': subs[i:i + 3], 'assignments': assigns, 'cpu_count': 1})
     ilv_specs = [({'K': 2, 'n_outputs': 3, 'value_width': {'1': 40}}, 3)] if tier == 'quick' else \
         [({'K': 2, 'n_outputs': 3, 'value_width': {'1': 40}}, 4), ({'K': 2, 'n_outputs': 400, 'value_width': {'0': 30}}, 3),
          ({'K': 3, 'n_outputs': 3, 'value_width': {'2': 40}}, 2)]
@@ -218,7 +234,8 @@ def run(tier, seed, budget=None):
               'one label absent} x K scripted iterations (quick 3, thorough 4) x ALL 2^K subsets of out-of-range iterations x ALL assignments to '
               '<=W workers (quick 2, thorough 3); every surviving row re-simulated through the real client and compared token by token in header '
               'order; statistics recomputed from the rows; E4: all interleavings of two (thorough: three) concurrent appends with rows of '
-              'different lengths (thorough: one > 8 KiB) up to 3 (4) preemptions. Non-trivial = at least one failing iteration and more than '
+              'different lengths (thorough: one > 8 KiB) up to 3 (4) preemptions; long runs: K=8 (12) iterations with the pool seeing 1 CPU (environment answer), '
+              'at most 1 (2) failing iterations, assignments of whatever work items the driver hands to map(). Non-trivial = at least one failing iteration and more than '
               'one worker; distinct by (base, outputs, K, failing subset, assignment)'),
         assumptions=['samples are scripted environment answers (distinct in-range value per iteration ordinal; one out-of-range value for failing iterations)',
                      'a single write(2) of one row (< 8 KiB) to an O_APPEND regular file is atomic',
